@@ -19,7 +19,8 @@ const char *MUTS[] = {"Hputelement-new", "Hputelement-existing", "Hstartwrite", 
                       // appended later (indices of stored plans stay valid)
                       "VSsetclass-on-r", "VSfdefine-on-r", "VSsetinterlace-on-r", "VSsetexternalfile-on-r", "Vdeletetagref-on-r",
                       "Vinsert-on-r", "SDsetdimstrs", "SDsetnbitdataset", "SDsetdimval_comp", "GRsetexternalfile", "GRsetchunk",
-                      "SDwritechunk", "GRwritechunk", "Hsetlength-on-read-aid", "Happendable-on-read-aid"};
+                      "SDwritechunk", "GRwritechunk", "Hsetlength-on-read-aid", "Happendable-on-read-aid",
+                      "SDstart-not-hdf", "Hopen-not-hdf", "SDstart-rdwr-not-hdf"};
 const int   NMUT   = sizeof MUTS / sizeof MUTS[0];
 
 // Mutators kept out of the search unless knob unguard_ro_api=1 is set.  Empty: the sixteen mutators that read-only
@@ -98,6 +99,12 @@ struct ReadOnly : Profile {
         uint16 tag = Mixed::htag(a1), ref = Mixed::href(a2);
         const std::string n = MUTS[api];
         auto   need_h = [&]() { return mx.need_h(); };
+        if (n == "SDstart-not-hdf" || n == "SDstart-rdwr-not-hdf" || n == "Hopen-not-hdf") {
+            // (the open fails for every access mode; what matters is that the refused file is still there, unchanged: the
+            // frozen-disk monitor and the byte compare see to that)
+            int32 id = n == "Hopen-not-hdf" ? Hopen("/sim/ro_junk.bin", DFACC_READ, 0) : SDstart("/sim/ro_junk.bin", n == "SDstart-not-hdf" ? DFACC_READ : DFACC_RDWR);
+            return id == FAIL;
+        }
         if (n.compare(0, 2, "SD") == 0) {
             if (!mx.need_sd())
                 return -1;
@@ -555,6 +562,15 @@ struct ReadOnly : Profile {
                 mx.acc_mode = DFACC_READ;
                 ta          = read_everything(ctx, mx, "reading the new file back");
                 mx.end_session();
+                {
+                    // a file that is no HDF file lies next to the others: opening it is refused and leaves it alone
+                    FILE *jf = fopen("/sim/ro_junk.bin", "wb");
+                    if (jf) {
+                        static const char text[] = "plain text, not a hierarchical data file; long enough for any header to be read from it ........";
+                        fwrite(text, 1, sizeof text, jf);
+                        fclose(jf);
+                    }
+                }
                 if (p.knob("with_writer", 0)) {
                     // Another client has the file open for writing (and edits nothing).  The access mode of the H layer belongs
                     // to the file, not to the id, so H-level calls are left out of such a phase B; an SD handle opened for
